@@ -105,6 +105,8 @@ func sampleTyped(rng *rand.Rand, pkg CorpusPkg, mode Mode, i int) CScenario {
 		World: "corpus", ID: fmt.Sprintf("typed:%s#%d", pkg.Name, i), Pkg: pkg.Name, Seed: rng.Uint64() >> 1, Typed: true,
 		YieldP: []float64{0.3, 1}[rng.Intn(2)], MaxDelay: []int{1, 3, 10}[rng.Intn(3)], Procs: []int{1, 2, 4, 8, 16}[rng.Intn(5)],
 		PoolPolicy: rng.Intn(3), Poison: rng.Intn(4) != 0, MapPolicy: []int{2, 3, 4}[rng.Intn(3)],
+		// half of the scenarios mount the server under a path prefix and give the client the matching base URL
+		Prefix: []string{"", "", "/api/v1", "/x"}[rng.Intn(4)],
 	}
 	switch rng.Intn(4) {
 	case 0:
@@ -683,7 +685,7 @@ func (e *Engine) minimiseTyped(id string, sc CScenario, r *CRecord, key string, 
 				ps = append(ps, typedDeliver(cr, sc.Pkg, deliver[sc.Pkg])...)
 			case "C15":
 				ps = append(ps, typedC15(cr, sc.Pkg)...)
-				ps = append(ps, routingRule(cr, e.matchers(sc.Pkg), sc.Pkg)...)
+				ps = append(ps, routingRule(cr, e.matchers(sc.Pkg), sc.Pkg, sc.Prefix)...)
 			}
 		}
 	}
